@@ -62,7 +62,11 @@ def gen_rearrange_core(rng, n):
     return out
 
 
-def _capture_graph(c):
+def _capture_graph_numpylike(c):
+    return _capture_graph(c, "numpy.numpylike")
+
+
+def _capture_graph(c, backend="numpy"):
     """the optimised graph einx builds for the call on the numpy backend, as a term of Model/Opt.v (wire form), and the call's result"""
     import einx._src.tracer as tracer
     graphs = []
@@ -74,7 +78,7 @@ def _capture_graph(c):
         return after
     tracer.optimize = optimize
     try:
-        r = implrun.run_call(c, "numpy")
+        r = implrun.run_call(c, backend)
     finally:
         tracer.optimize = orig
     if len(graphs) != 1:
@@ -112,6 +116,31 @@ def gen_elementwise_core(rng, n):
             continue
         op = rng.choice(["add", "multiply", "subtract", "maximum", "minimum"])
         c = gencalls.Call("elementwise", op, ins, [dout], [gencalls.int_data(rng, gencalls.shape_of(t)) for t in ins])
+        c.describe(rng)
+        out.append(c)
+    return out
+
+
+def gen_dot_core(rng, n):
+    """two-operand dot calls with nested flattened axes: every axis is a batch axis (both operands and the output), contracted
+    (both operands only), or kept from one operand"""
+    out = []
+    g = gencalls.G(rng)
+    while len(out) < n:
+        axes = g.pick_axes(rng.randint(2, 5), sizes=[2, 3, 4], maxprod=600)
+        if any(a.size == 1 for a in axes):
+            continue
+        role = [rng.choice(["batch", "contract", "contract", "left", "right"]) for _ in axes]
+        left = [a for a, r in zip(axes, role) if r != "right"]
+        right = [a for a, r in zip(axes, role) if r != "left"]
+        outa = [a for a, r in zip(axes, role) if r != "contract"]
+        if not left or not right or not outa:
+            continue
+        ins = [g.arrange(g.perm(left), units=0.0, flat=0.4), g.arrange(g.perm(right), units=0.0, flat=0.4)]
+        dout = g.arrange(g.perm(outa), units=0.0, flat=0.4)
+        if any(isinstance(d, gencalls.Fl) and not d.leaves() for t in ins + [dout] for d in t):
+            continue
+        c = gencalls.Call("dot", "dot", ins, [dout], [gencalls.int_data(rng, gencalls.shape_of(t), -3, 3) for t in ins])
         c.describe(rng)
         out.append(c)
     return out
@@ -206,6 +235,30 @@ def run_lowering(ctx):
         else:
             ctx.tie_breaks.append({"correspondence": "Model/Lower.v: the graph einx built for this reduction is not equivalent to the model's term "
                                                      "(reshape to leaves, reduction over the bracketed positions, rearrangement; verdict: in_scope, equivalent, wf_model, wf_graph, sizes)",
+                                   "call": c.record(), "verdict": r})
+        ctx.distinct.add("lower|" + c.desc)
+    # dot on the matmul path (numpy.numpylike): operands rearranged to (batch)(left)(contracted) / (batch)(contracted)(right),
+    # np.matmul, rearrangement of (batch)(left)(right) into the output
+    dcases = gen_dot_core(ctx.rng, 150 if ctx.tier == "quick" else 5000)
+    dcaps = common.pmap(_capture_graph_numpylike, dcases)
+    lines, owners = [], []
+    stats.update({"dot_calls": len(dcases), "dot_graph_equals_model": 0})
+    for c, cap in zip(dcases, dcaps):
+        if cap[0] == "term":
+            names = gencalls.Names()
+            lines.append(sx(["lower_dot", [gencalls.w_dims(c.ins[0], names), gencalls.w_dims(c.ins[1], names), gencalls.w_dims(c.outs[0], names), cap[1]]]))
+            owners.append(c)
+        elif cap[0] == "nograph" and cap[1] == 0:
+            stats["served_from_cache_no_trace"] = stats.get("served_from_cache_no_trace", 0) + 1
+        else:
+            ctx.tie_breaks.append({"correspondence": "lowering model vs traced graph: graph not captured as a term", "call": c.record(), "detail": str(cap[:2])})
+    for c, r in zip(owners, ctx.model.batch(lines)):
+        if isinstance(r, list) and r[0] == "lower" and r[1:5] == ["T", "T", "T", "T"]:
+            stats["dot_graph_equals_model"] += 1
+        else:
+            ctx.tie_breaks.append({"correspondence": "Model/Lower.v: the graph einx built for this dot on numpy.numpylike is not equivalent to the model's term "
+                                                     "(operands to (batch)(left)(contracted) / (batch)(contracted)(right), matmul, rearrangement; verdict: in_scope, "
+                                                     "equivalent, wf_model, wf_graph, sizes)",
                                    "call": c.record(), "verdict": r})
         ctx.distinct.add("lower|" + c.desc)
     return stats
